@@ -124,9 +124,12 @@ func Finalizing(ctx interface{}) error {
 			return nil
 		}
 
+		// the job store is local to this witness: its problems must not keep the state
+		// transition decided above (from the chain state alone) from being recorded
 		bjob, err := context.JobStore.GetJob(tracker.GetJobID(ethereum.BusyBroadcasting))
 		if err != nil {
-			return errors.Wrap(err, "failed to get job")
+			context.Logger.Error("failed to get job", err)
+			return nil
 		}
 
 		if !bjob.IsDone() || bjob.IsFailed() {
@@ -140,7 +143,8 @@ func Finalizing(ctx interface{}) error {
 		job := NewETHCheckFinality(tracker.TrackerName, ethereum.BusyFinalizing)
 		err = context.JobStore.SaveJob(job)
 		if err != nil {
-			return errors.Wrap(errors.New("job serialization failed err: "), err.Error())
+			context.Logger.Error("job serialization failed err: ", err)
+			return nil
 		}
 	}
 
